@@ -135,6 +135,17 @@ def gen_arrays(ctx, tier):
         yield relayout(a, int(rng.integers(0, 4))), f"dtype:{dt}"
 
 
+def same_layout_copy(u):
+    """a private copy of u in the SAME memory layout (np.copy would silently make it C-contiguous): C order, Fortran order,
+    transposed view of a C array, or strided view of a wider array"""
+    u = np.asarray(u)
+    if u.ndim < 2 or u.flags["C_CONTIGUOUS"]:
+        return u.copy()
+    if u.flags["F_CONTIGUOUS"]:
+        return np.asfortranarray(u.copy())
+    return relayout(u.copy(), 3)
+
+
 def gen_batches(ctx, tier):
     maxlen = 3 if tier == "quick" else 4
     for n in range(1, maxlen + 1):
@@ -260,8 +271,8 @@ def run(ctx):
         rs = np.random.RandomState(seed) if use_rs else seed
         has_inf = bool(np.any(np.isinf(u)))
         try:
-            picks, rows = sel.simple_batch(u.copy(), random_state=rs, batch_size=bs, return_utilities=True)
-            picks2 = sel.simple_batch(u.copy(), random_state=(np.random.RandomState(seed) if use_rs else seed), batch_size=bs)
+            picks, rows = sel.simple_batch(same_layout_copy(u), random_state=rs, batch_size=bs, return_utilities=True)
+            picks2 = sel.simple_batch(same_layout_copy(u), random_state=(np.random.RandomState(seed) if use_rs else seed), batch_size=bs)
         except Exception as e:
             if has_inf and isinstance(e, ValueError):
                 ctx.count("simple_batch_rejects_inf")
@@ -313,7 +324,7 @@ def run(ctx):
         k = min(bs, len(vals))
         guard = bool(np.all(vals >= 0)) and int(np.sum(vals > 0)) >= k and (k == 0 or np.sum(vals) > 0)
         try:
-            picks, rows = sel.simple_batch(u.copy(), random_state=seed, batch_size=bs, return_utilities=True, method="proportional")
+            picks, rows = sel.simple_batch(same_layout_copy(u), random_state=seed, batch_size=bs, return_utilities=True, method="proportional")
         except Exception as e:
             if not guard and isinstance(e, ValueError):
                 ctx.count("simple_batch_prop_rejected")
